@@ -419,6 +419,52 @@ def r10_dependents_and_side_densities(idx, r):
                           "the component's thermal expansion (mass per unit height of that table drifts)")
 
 
+def r11_links_survive(idx, r):
+    """(a) _getLinkedDimsAndValues() REMOVES the _DimensionLink parameters from the component (so a deepcopy / backup does not drag the linked
+    component along) and returns them: every caller must hand them back to `self` on every normal path, or the component's linked
+    dimension silently becomes the parameter default and no longer follows the component it was linked to.
+    (b) clearLinkedCache drops the parent's cache and the cached volume of every linked component whenever there is a parent - under no
+    other condition."""
+    n = 0
+    for m in idx.modules.values():
+        if not m.name.startswith("armi.reactor") or ".tests" in m.name:
+            continue
+        for f in m.all_funcs():
+            strips = [s for s in iter_stores(f.node) if isinstance(s.value, ast.Call) and dotted(s.value.func) == "self._getLinkedDimsAndValues" and isinstance(s.node, ast.Name)]
+            bare = [c for c in iter_calls(f.node) if dotted(c.func) == "self._getLinkedDimsAndValues"]
+            if not bare:
+                continue
+            n += 1
+            if len(strips) != len(bare):
+                r.violate(f"{f.qualname}:stripped-links-kept", f, "the stripped links are discarded (result of _getLinkedDimsAndValues not kept)", node=bare[0])
+                continue
+            var = strips[0].attr
+
+            def ev(nd, var=var):
+                if isinstance(nd, ast.Call) and dotted(nd.func) == "self._restoreLinkedDims" and nd.args and norm(nd.args[0]) == var:
+                    return ["restored"]
+                return []
+            fl = Flow(f.node, ev).run()
+            bad = [e for e in fl.normal_exits() if e.state.get("restored", (0, 0))[0] < 1]
+            r.require(not bad, f"{f.qualname}:links-restored-on-self", f, node=(bad[0].node if bad and bad[0].node is not None else strips[0].stmt),
+                      msg=f"{f.qualname} strips this component's dimension links and can return without self._restoreLinkedDims({var}): the linked dimension falls back to "
+                          "its default and stops following the component it is linked to")
+    if n < 3:
+        raise AnalysisError(f"only {n} callers of _getLinkedDimsAndValues found")
+    cl = idx.method(COMP, "clearLinkedCache")
+    tgt = [s for s in iter_stores(cl.node) if norm(s.stmt) == "self.parent.cached = {}"] + [s for s in iter_stores(cl.node) if s.attr == "volume" and norm(s.value) == "None"]
+    if len(tgt) < 2:
+        raise AnchorMissing("clearLinkedCache: `self.parent.cached = {}` and `c.p.volume = None`")
+    for s_ in tgt:
+        conds = [(norm(t), p) for t, p in path_conditions(cl.node, s_.stmt)]
+        HAS_PARENT = {("self.parent", True), ("self.parent is not None", True), ("self.parent is None", False)}
+        r.require(all(c in HAS_PARENT for c in conds), f"clearLinkedCache:{s_.attr}:only-needs-parent", cl, node=s_.stmt,
+                  msg=f"dropping the dependents' cached values is made conditional on {[c for c in conds if c not in HAS_PARENT]}: a linked component keeps a stale volume "
+                      "while its linked dimension and area already follow the new temperature")
+    loop = next((x for x in walk_local(cl.node) if isinstance(x, ast.For) and isinstance(x.iter, ast.Call) and dotted(x.iter.func) == "self.getLinkedComponents"), None)
+    r.require(loop is not None and any(s_.stmt in loop.body for s_ in tgt), "clearLinkedCache:every-linked-component", cl, msg="the cached volume of every linked component must be dropped")
+
+
 def run(idx, chk):
     chk.explanation = (
         "C03: every two-dimensional shape's area formula is typed in the free abelian group generated by the linear expansion factor L "
@@ -442,3 +488,5 @@ def run(idx, chk):
                  necessary="a linked dimension follows the linked component at ITS temperature")
     chk.run_rule("R03.10", "the search for linked dependents is exhaustive; every density side table is rescaled whenever present", lambda r: r10_dependents_and_side_densities(idx, r), floor=5,
                  necessary="mass per unit height of every component is conserved at every temperature change; linked components follow")
+    chk.run_rule("R03.11", "stripped dimension links are handed back to the component on every path; clearLinkedCache drops dependents whenever a parent exists", lambda r: r11_links_survive(idx, r), floor=6,
+                 necessary="a linked dimension follows the component it is linked to, before and after copies, backups and temperature changes")
